@@ -1,0 +1,18 @@
+//go:build verif
+// +build verif
+
+package bfe_stream
+
+import (
+	"net"
+)
+
+import (
+	http "github.com/bfenetworks/bfe/bfe_http"
+)
+
+// VerifC07Serve runs the real serverConn.serve() of the TLS stream proxy for one client connection
+// (hook for the out-of-tree verification harness of C07, build tag verif; add-only).
+func VerifC07Serve(s *Server, hs *http.Server, c net.Conn) {
+	s.handleConn(hs, c, nil).serve()
+}
